@@ -23,9 +23,10 @@ RULE = ("est: estimator in {Jansen,Homma,Janon,Glen,Saltelli}, d in 1..6, n in 2
         "replicated blocks equal to A (inert dimensions), 2-D and 4-D masks; design: 4 replicated + 4 plain samplers "
         "(binary or not), d in 1..9, n in 1..16; hsic_est: Binary/Sobolev/Rbf estimators, grid 1..3, n in 2..10, "
         "estimator batch sizes {1,2,d-1,d,d+1,None}; sobol_expl / hsic_expl: images up to 6x6x3 with H != W, grid "
-        "1..3, the three perturbation functions, forward batch sizes {1,2,3,N-1,N,N+1,256}, F-quad scores with cross "
+        "1..3, the three perturbation functions, forward batch sizes {1,2,3,N-1,N,N+1,256,None}, F-quad scores with cross "
         "terms; distinct = different canonical JSON encoding; non-trivial = more than one dimension and (estimator "
-        "cases) at least 3 design points, (explainers) at least two mask batches or a remainder batch, (designs) d >= 2")
+        "cases) at least 3 design points, (explainers) at least two mask batches, a remainder batch or batch_size=None, "
+        "(designs) d >= 2")
 ASSUMPTIONS = [
     "score is applied row-wise (no cross-sample coupling)",
     "QMC / LHS draws, np.percentile, sqrt, exp, cv2.blur and the final bicubic tf.image.resize are library calls: "
@@ -37,6 +38,10 @@ ASSUMPTIONS = [
     "explain() output is compared with tf.image.resize(bicubic) of the low-resolution map returned by the explainer's "
     "estimator on the recorded outputs (staging): max abs difference <= 1e-5 * (1 + max |map|) (the explainer feeds float32 "
     "outputs to the estimator, the recorded ones are float64; measured worst 1.2e-4 on a map of magnitude 1e3)",
+    "end-to-end Sobol tolerances are condition-scaled: kappa = max (second moment / variance) over the design blocks "
+    "entering a denominator, computed from the recorded outputs; relative tolerance max(2e-5, 1e-6 kappa) for the "
+    "low-resolution map, max(1e-5, 5e-7 kappa) (1 + max|map|) for the resize staging; cases with kappa > 1e4 are "
+    "skipped and counted (float32 outputs carry 6e-8 relative error; measured 4e-5 at kappa = 400)",
     "LatinHypercube(RS) draws are unseeded inside xplique (qmc.LatinHypercube(dimension), no public seed): a replay of "
     "such a case re-draws the design; the draw is an input of the model, so the verdict does not depend on it",
     "HSIC cases are generated with positive scores (the unchanged tree returns NaN when the median output is 0: "
@@ -157,7 +162,7 @@ def gen_image(rng):
 
 
 def bs_choice(rng, total):
-    return rng.choice([1, 2, 3, max(1, total - 1), total, total + 1, 256, rng.randint(1, total + 1)])
+    return rng.choice([1, 2, 3, max(1, total - 1), total, total + 1, 256, None, None, rng.randint(1, total + 1)])
 
 
 def gen_sobol_expl(rng, tier):
@@ -232,7 +237,7 @@ def nontrivial(case):
     if k == "hsic_est":
         return case["g"] >= 2 and case["n"] >= 3
     total = case["n"] * (case["g"] ** 2 + 2) if k == "sobol_expl" else case["n"]
-    return case["g"] >= 2 and (total > case["bs"])
+    return case["g"] >= 2 and (case["bs"] is None or total > case["bs"])
 
 
 def distribution(cases):
@@ -374,6 +379,25 @@ def baselines(case):
     return out
 
 
+KAPPA_MAX = 1e4
+
+
+def sobol_kappa(o, n, d, est):
+    """condition number of the estimators with respect to rounding of the outputs: (second moment) / (variance) of
+       the blocks that enter a denominator (float32 outputs carry 6e-8 relative error each)"""
+    o = np.asarray(o, dtype=np.float64)
+    a = o[:n]
+    ks = [float((a * a).mean() / np.var(a))]
+    for i in range(d):
+        c = o[2 * n + n * i:2 * n + n * (i + 1)]
+        m2 = (a * a + c * c).mean() / 2.0
+        pooled = m2 - ((a + c).mean() / 2.0) ** 2
+        ks.append(float(m2 / pooled))
+        if est == "Glen":
+            ks.append(float((c * c).mean() / np.var(c)))
+    return max(1.0, max(ks))
+
+
 def run_expl(case):
     import tensorflow as tf
     gsa = _gsa()
@@ -421,8 +445,14 @@ def run_expl(case):
         blocks = [0] + ([2 + i for i in range(g * g)] if case["est"] == "Glen" else [])
         if any(len(set(o[b * n:(b + 1) * n])) == 1 for o in outs for b in blocks):
             return dict(skip="zero variance of the outputs on a design block", outputs=outs)
+    kappa = 1.0
+    if case["kind"] == "sobol_expl":
+        kappa = max(sobol_kappa(o, n, g * g, case["est"]) for o in outs)
+        if kappa > KAPPA_MAX:
+            # guard: second moment / variance so large that float32 outputs cannot carry the estimator
+            return dict(skip=f"ill-conditioned outputs (second moment / variance = {kappa:.3g})", outputs=outs)
     res = dict(masks=rows(masks), masks_shape=list(masks.shape), lows=lows, outputs=outs, out_shape=list(out.shape),
-               resize_diff=resize_diff, resize_scale=resize_scale, x0=baselines(case))
+               resize_diff=resize_diff, resize_scale=resize_scale, kappa=kappa, x0=baselines(case))
     if case["kind"] == "sobol_expl" and case["est"] == "Glen":
         res["roots"] = [glen_roots(o, n, g * g) for o in outs]
     if case["kind"] == "hsic_expl":
@@ -523,6 +553,10 @@ def term_hsic_est(case, res):
             f"(lof_table (tab_L otab) {core.cqlist(res['outs'][0]['y'])}) {n}) {core.cqlist(res['values'])}")
 
 
+def bs_term(case):
+    return core.copt(None if case["bs"] is None else core.cnat(case["bs"]))
+
+
 def pf_term(case, res):
     if case["pert"] == "amplitude":
         return f"(fun _ => Amplitude 1)"
@@ -533,12 +567,15 @@ def pf_term(case, res):
 def term_expl(case, res):
     h, w, c = case["shape"]
     g, n = core.cnat(case["g"]), core.cnat(case["n"])
-    geo = f"{g} {core.cnat(h)} {core.cnat(w)} {core.cnat(c)} {core.cnat(case['bs'])}"
+    geo = f"{g} {core.cnat(h)} {core.cnat(w)} {core.cnat(c)} {bs_term(case)}"
     score = f"(fquad {fam.coq_fquad(case['params'])})"
     masks = cmat(res["masks"])
     xs, ts = cmat(case["xs"]), cmat(case["ts"])
     # float32 maps: the staged and the returned map may differ by a few ulps of the largest value
-    ok_resize = core.cbool(res["resize_diff"] <= TOL_RESIZE * (1.0 + res["resize_scale"]))
+    # and the explainer feeds float32 outputs to the estimator (recorded ones are float64): error ~ 2.4e-7 * kappa
+    kappa = res.get("kappa", 1.0)
+    ok_resize = core.cbool(res["resize_diff"] <= max(TOL_RESIZE, 5e-7 * kappa) * (1.0 + res["resize_scale"]))
+    tol_expl = f"(q 1 {int(1.0 / max(2e-5, 1e-6 * kappa))})"
     if case["kind"] == "sobol_expl":
         d = f"({g} * {g})"
         # explainer.masks must be a replicated design: A, B (first 2n rows) then the blocks C_i, values in [0,1]
@@ -555,7 +592,7 @@ def term_expl(case, res):
             return f"{ok_resize} && {structure} && " + " && ".join(terms)
         name = "jansen" if case["est"] == "default" else case["est"].lower()
         return (f"{ok_resize} && {structure} && "
-                f"lclose2 {TOL_EXPL} (sobol_explain {score} {name} {pf_term(case, res)} {geo} {n} {masks} {xs} {ts}) "
+                f"lclose2 {tol_expl} (sobol_explain {score} {name} {pf_term(case, res)} {geo} {n} {masks} {xs} {ts}) "
                 f"{cmat(res['lows'])}")
     est = "Binary" if case["est"] == "default" else case["est"]
     outs, chk = hsic_checks(est, res)
@@ -597,7 +634,7 @@ def dump_term(case, res):
                 f"{cmat(case['masks'])} (lof_table (tab_L otab) {core.cqlist(res['outs'][0]['y'])}) {n})")
     h, w, c = case["shape"]
     g, n = core.cnat(case["g"]), core.cnat(case["n"])
-    geo = f"{g} {core.cnat(h)} {core.cnat(w)} {core.cnat(c)} {core.cnat(case['bs'])}"
+    geo = f"{g} {core.cnat(h)} {core.cnat(w)} {core.cnat(c)} {bs_term(case)}"
     score = f"(fquad {fam.coq_fquad(case['params'])})"
     masks = cmat(res["masks"])
     xs, ts = cmat(case["xs"]), cmat(case["ts"])
@@ -657,9 +694,9 @@ def shrink(case):
                 del c["xs"][i]
                 del c["ts"][i]
                 yield c
-        if case["bs"] != 256:
+        if case["bs"] is not None:
             c = copy.deepcopy(case)
-            c["bs"] = 256
+            c["bs"] = None
             yield c
         if case.get("ebs") is not None:
             c = copy.deepcopy(case)
